@@ -323,8 +323,11 @@ def build_node(rt, nd, prefix):
         return _rename_inputs(node, nd)
     if kind == "route":
         f = _mk_callable(rt, path, nd, "gate")
-        tg = [END if t == "END" else t for t in nd["targets"]]
+        # ctor_targets: the targets as handed to the constructor (the fallback may be left out: it is a target all the same)
+        tg = [END if t == "END" else t for t in nd.get("ctor_targets", nd["targets"])]
         fb = None if nd["fallback"] == IR.NONE else (END if nd["fallback"] == "END" else nd["fallback"])
+        if zlib.crc32((path + "/targets").encode()) % 2:
+            tg = {t: f"route to {t}" for t in tg}        # the documented dict form {target: description}
         if _via_decorator(nd, path, f):
             return hg_route(targets=tg, fallback=fb, multi_target=nd["multi"], cache=nd["cache"], default_open=nd["default_open"],
                             name=nd["name"], rename_inputs=ren, emit=emit, wait_for=wait_for)(f)
